@@ -1,4 +1,379 @@
-#[allow(dead_code, unused_imports, unused_variables, unused_mut)]
+// C12 (ingress half): PacketAssembler / PacketAssemblerSet reproduce the datagram or deliver nothing.
+// Spliced into src/iface/fragmentation.rs: private fields of `PacketAssembler`, `PacketAssemblerSet` reachable.
+//
+// `offer` repeats, call for call, what `InterfaceInner::process_ipv4` does with a fragment
+// (get -> [set_total_size if MF clear] -> add -> assemble); `ipv4_reasm_process` in iface_frag_tx.rs runs the
+// same obligations through `process_ipv4` itself.
+#[allow(dead_code, unused_imports, unused_variables, unused_mut, unused_assignments)]
 mod v_iface_frag {
     use super::*;
+    use crate::config::ASSEMBLER_MAX_SEGMENT_COUNT;
+    use crate::verif_common::*;
+
+    type Key = u16;
+
+    /// the fragment branch of `process_ipv4` (src/iface/interface/ipv4.rs): `None` = nothing delivered
+    fn offer<'a>(
+        set: &'a mut PacketAssemblerSet<Key>,
+        key: Key,
+        expires: Instant,
+        data: &[u8],
+        off: usize,
+        more_frags: bool,
+    ) -> Option<&'a [u8]> {
+        let f = match set.get(&key, expires) {
+            Ok(f) => f,
+            Err(_) => return None,
+        };
+        if !more_frags {
+            if f.set_total_size(data.len() + off).is_err() {
+                return None;
+            }
+        }
+        if f.add(data, off).is_err() {
+            return None;
+        }
+        f.assemble()
+    }
+
+    /// maximal runs of present 8-byte blocks (4 blocks) = data ranges the assembler has to track
+    fn runs4(m: u8) -> usize {
+        (m & 1 != 0) as usize
+            + ((m & 2 != 0) && (m & 1 == 0)) as usize
+            + ((m & 4 != 0) && (m & 2 == 0)) as usize
+            + ((m & 8 != 0) && (m & 4 == 0)) as usize
+    }
+
+    // ------------------------------------------------------------------ any order, duplicates, consistent overlap
+    // Ghost datagram of T bytes (24 < T <= 32): fragments A=[0,8) B=[8,16) C=[16,24) D=[24,T) (last, MF clear) and the
+    // consistent overlapping retransmission E=[8,24).  N symbolic picks.
+    macro_rules! any_order {
+        ($t:expr, $($step:ident),+) => {{
+            const T: usize = $t;
+            let g: [u8; 32] = kani::any();
+            let key: Key = kani::any();
+            let exp = Instant::from_millis(60_000);
+            let mut set = PacketAssemblerSet::<Key>::new();
+            let mut mask = 0u8;
+            let mut over = false;
+            let mut delivered = 0usize;
+            let mut ooo = false;
+            let mut overlap = false;
+            let mut late_total = false;
+            $(
+                let $step: u8 = kani::any();
+                kani::assume($step < 5);
+                crate::vdump!("pick {}", $step);
+                let bits: u8 = match $step { 0 => 1, 1 => 2, 2 => 4, 3 => 8, _ => 6 };
+                let low = bits & bits.wrapping_neg();
+                ooo = ooo || (mask & (low - 1)) != low - 1;
+                overlap = overlap || (mask & bits != 0 && mask & bits != bits);
+                late_total = late_total || ($step != 3 && mask & 8 != 0);
+                mask |= bits;
+                over = over || runs4(mask) > ASSEMBLER_MAX_SEGMENT_COUNT;
+                let res = match $step {
+                    0 => offer(&mut set, key, exp, &g[0..8], 0, true),
+                    1 => offer(&mut set, key, exp, &g[8..16], 8, true),
+                    2 => offer(&mut set, key, exp, &g[16..24], 16, true),
+                    3 => offer(&mut set, key, exp, &g[24..T], 24, false),
+                    _ => offer(&mut set, key, exp, &g[8..24], 8, true),
+                };
+                match res {
+                    Some(p) => {
+                        assert!(mask == 15, "prop:c12_reasm_delivers_only_when_every_byte_present");
+                        assert!(p.len() == T, "prop:c12_reasm_delivered_length_exact");
+                        let k = any_lt(T);
+                        assert!(p[k] == g[k], "prop:c12_reasm_delivered_bytes_equal_datagram");
+                        mask = 0;
+                        delivered += 1;
+                    }
+                    None => {
+                        assert!(mask != 15 || over, "prop:c12_reasm_delivers_when_gaps_trackable");
+                    }
+                }
+                // a delivered datagram releases its slot; an unfinished one keeps exactly one
+                {
+                    let used = set.assemblers[0].key.is_some() as usize + set.assemblers[1].key.is_some() as usize;
+                    assert!(used == (mask != 0) as usize, "prop:c12_reasm_slot_held_exactly_while_incomplete");
+                }
+            )+
+            kani::cover!(delivered == 1 && ooo, "datagram delivered after out-of-order arrival");
+            kani::cover!(delivered == 1 && overlap, "datagram delivered with an overlapping retransmission");
+            kani::cover!(delivered == 1 && late_total, "last fragment arrived before an earlier one");
+            kani::cover!(delivered == 0 && mask == 13, "one block missing: nothing delivered");
+        }};
+    }
+
+    // @harness props=C12 cfg=KI4 tier=q to=1200 mem=8 unwind=12 opts=nomem,fs300 covers=4 funcs=PacketAssemblerSet::get;PacketAssembler::set_total_size;PacketAssembler::add;PacketAssembler::assemble;PacketAssembler::is_complete;Assembler::add bounds=datagram_of_32_bytes_in_4_fragments_of_8_plus_one_overlapping_16-byte_retransmission;_5_symbolic_picks_(every_order_and_duplication);_symbolic_bytes_and_key;_no_expiry
+    #[kani::proof]
+    pub(crate) fn ipv4_reasm_any_order_32() {
+        any_order!(32, a, b, c, d, e);
+    }
+
+    // @harness props=C12 cfg=KI4 tier=q to=1200 mem=8 unwind=12 opts=nomem,fs300 covers=4 funcs=PacketAssemblerSet::get;PacketAssembler::set_total_size;PacketAssembler::add;PacketAssembler::assemble;PacketAssembler::is_complete;Assembler::add bounds=datagram_of_25_bytes_(last_fragment_1_byte)_in_4_fragments_plus_one_overlapping_retransmission;_5_symbolic_picks;_symbolic_bytes_and_key;_no_expiry
+    #[kani::proof]
+    pub(crate) fn ipv4_reasm_any_order_25() {
+        any_order!(25, a, b, c, d, e);
+    }
+
+    // ------------------------------------------------------------------ two datagrams interleaved
+    // GA (key ka) and GB (key kb != ka), 16 bytes each in two fragments; 5 symbolic picks among the four
+    // fragments: each datagram comes out with its own bytes only.
+    // @harness props=C12 cfg=KI4 tier=q to=1200 mem=8 unwind=12 opts=nomem,fs300 covers=2 funcs=PacketAssemblerSet::get;PacketAssembler::set_total_size;PacketAssembler::add;PacketAssembler::assemble bounds=two_datagrams_of_16_bytes_in_2_fragments_each;_distinct_symbolic_keys;_5_symbolic_picks;_2_reassembly_slots
+    #[kani::proof]
+    pub(crate) fn ipv4_reasm_two_datagrams() {
+        let ga: [u8; 16] = kani::any();
+        let gb: [u8; 16] = kani::any();
+        let ka: Key = kani::any();
+        let kb: Key = kani::any();
+        kani::assume(ka != kb);
+        let exp = Instant::from_millis(60_000);
+        let mut set = PacketAssemblerSet::<Key>::new();
+        let mut ma = 0u8;
+        let mut mb = 0u8;
+        let mut da = 0usize;
+        let mut db = 0usize;
+        let mut inter = false;
+        macro_rules! step {
+            () => {{
+                let pick: u8 = kani::any();
+                kani::assume(pick < 4);
+                crate::vdump!("pick {}", pick);
+                let is_a = pick < 2;
+                inter = inter || (is_a && mb != 0) || (!is_a && ma != 0);
+                if is_a { ma |= 1 << pick; } else { mb |= 1 << (pick - 2); }
+                let res = match pick {
+                    0 => offer(&mut set, ka, exp, &ga[0..8], 0, true),
+                    1 => offer(&mut set, ka, exp, &ga[8..16], 8, false),
+                    2 => offer(&mut set, kb, exp, &gb[0..8], 0, true),
+                    _ => offer(&mut set, kb, exp, &gb[8..16], 8, false),
+                };
+                match res {
+                    Some(p) => {
+                        assert!(p.len() == 16, "prop:c12_reasm_delivered_length_exact");
+                        let k = any_lt(16);
+                        if is_a {
+                            assert!(ma == 3, "prop:c12_reasm_delivers_only_when_every_byte_present");
+                            assert!(p[k] == ga[k], "prop:c12_reasm_datagrams_never_mixed");
+                            ma = 0;
+                            da += 1;
+                        } else {
+                            assert!(mb == 3, "prop:c12_reasm_delivers_only_when_every_byte_present");
+                            assert!(p[k] == gb[k], "prop:c12_reasm_datagrams_never_mixed");
+                            mb = 0;
+                            db += 1;
+                        }
+                    }
+                    None => {
+                        assert!(if is_a { ma != 3 } else { mb != 3 }, "prop:c12_reasm_delivers_when_gaps_trackable");
+                    }
+                }
+            }};
+        }
+        step!();
+        step!();
+        step!();
+        step!();
+        step!();
+        kani::cover!(da == 1 && db == 1 && inter, "both datagrams delivered from interleaved fragments");
+        kani::cover!(da == 2, "the same datagram delivered twice when all of it was sent twice");
+    }
+
+    // ------------------------------------------------------------------ slots: keys, full set, expiry
+    fn used(set: &PacketAssemblerSet<Key>, k: Key) -> usize {
+        (set.assemblers[0].key == Some(k)) as usize + (set.assemblers[1].key == Some(k)) as usize
+    }
+    fn clean(a: &PacketAssembler<Key>) -> bool {
+        a.total_size.is_none() && a.assembler.is_empty()
+    }
+
+    // @harness props=C12 cfg=KI4 tier=q to=900 mem=6 unwind=12 opts=nomem,fs300 covers=3 funcs=PacketAssemblerSet::get;PacketAssemblerSet::remove_expired;PacketAssembler::reset bounds=2_reassembly_slots_(REASSEMBLY_BUFFER_COUNT=2);_4_symbolic_keys;_symbolic_expiry_instants_and_clock;_one_marker_byte_per_slot
+    #[kani::proof]
+    pub(crate) fn ipv4_reasm_set_slots() {
+        assert!(crate::config::REASSEMBLY_BUFFER_COUNT == 2);
+        let mut set = PacketAssemblerSet::<Key>::new();
+        let k1: Key = kani::any();
+        let k2: Key = kani::any();
+        let k3: Key = kani::any();
+        let k4: Key = kani::any();
+        let e1 = Instant::from_micros(kani::any::<i64>());
+        let e2 = Instant::from_micros(kani::any::<i64>());
+        let e3 = Instant::from_micros(kani::any::<i64>());
+        let e4 = Instant::from_micros(kani::any::<i64>());
+        let m1: u8 = kani::any();
+        let m2: u8 = kani::any();
+        // first key: always a clean slot
+        {
+            let a = set.get(&k1, e1);
+            assert!(a.is_ok(), "prop:c12_slots_empty_set_accepts");
+            let a = a.unwrap();
+            assert!(a.key == Some(k1) && a.expires_at == e1 && clean(a), "prop:c12_slots_new_slot_clean_and_keyed");
+            a.add(&[m1], 0).unwrap();
+        }
+        // second key
+        {
+            let b = set.get(&k2, e2);
+            assert!(b.is_ok(), "prop:c12_slots_second_key_fits");
+            let b = b.unwrap();
+            if k2 == k1 {
+                assert!(b.expires_at == e1 && b.buffer[0] == m1 && b.assembler.peek_front() == 1, "prop:c12_slots_same_key_same_slot");
+            } else {
+                assert!(b.key == Some(k2) && b.expires_at == e2 && clean(b), "prop:c12_slots_new_slot_clean_and_keyed");
+                b.add(&[m2], 0).unwrap();
+            }
+        }
+        assert!(used(&set, k1) == 1 && used(&set, k2) == 1, "prop:c12_slots_one_slot_per_key");
+        let pre0 = (set.assemblers[0].key, set.assemblers[0].expires_at, set.assemblers[0].buffer[0], set.assemblers[0].assembler.peek_front());
+        let pre1 = (set.assemblers[1].key, set.assemblers[1].expires_at, set.assemblers[1].buffer[0], set.assemblers[1].assembler.peek_front());
+        // third key
+        let full = k1 != k2 && k3 != k1 && k3 != k2;
+        {
+            let c = set.get(&k3, e3);
+            if full {
+                assert!(c.is_err(), "prop:c12_slots_full_set_refuses_instead_of_evicting");
+            } else {
+                assert!(c.is_ok(), "prop:c12_slots_free_or_matching_slot_is_handed_out");
+                let c = c.unwrap();
+                assert!(c.key == Some(k3), "prop:c12_slots_handed_slot_carries_the_key");
+                if k3 == k1 || k3 == k2 {
+                    assert!(c.assembler.peek_front() == 1 && c.buffer[0] == if k3 == k1 { m1 } else { m2 }, "prop:c12_slots_same_key_same_slot");
+                } else {
+                    assert!(clean(c) && c.expires_at == e3, "prop:c12_slots_new_slot_clean_and_keyed");
+                }
+            }
+        }
+        if full {
+            let post0 = (set.assemblers[0].key, set.assemblers[0].expires_at, set.assemblers[0].buffer[0], set.assemblers[0].assembler.peek_front());
+            let post1 = (set.assemblers[1].key, set.assemblers[1].expires_at, set.assemblers[1].buffer[0], set.assemblers[1].assembler.peek_front());
+            assert!(pre0 == post0 && pre1 == post1, "prop:c12_slots_refusal_leaves_slots_untouched");
+        }
+        assert!(used(&set, k1) == 1 && used(&set, k2) == 1 && used(&set, k3) <= 1, "prop:c12_slots_one_slot_per_key");
+        // the clock advances
+        let t = Instant::from_micros(kani::any::<i64>());
+        let b0 = (set.assemblers[0].key, set.assemblers[0].expires_at);
+        let b1 = (set.assemblers[1].key, set.assemblers[1].expires_at);
+        set.remove_expired(t);
+        let mut freed = 0;
+        {
+            let s0 = &set.assemblers[0];
+            if b0.0.is_some() && b0.1 < t {
+                assert!(s0.key.is_none() && clean(s0), "prop:c12_slots_expired_slot_freed_and_cleared");
+                freed += 1;
+            } else {
+                assert!(s0.key == b0.0 && s0.expires_at == b0.1, "prop:c12_slots_unexpired_slot_kept");
+            }
+            let s1 = &set.assemblers[1];
+            if b1.0.is_some() && b1.1 < t {
+                assert!(s1.key.is_none() && clean(s1), "prop:c12_slots_expired_slot_freed_and_cleared");
+                freed += 1;
+            } else {
+                assert!(s1.key == b1.0 && s1.expires_at == b1.1, "prop:c12_slots_unexpired_slot_kept");
+            }
+        }
+        // a fourth key gets a slot exactly when one matches or is free
+        let room = set.assemblers[0].key.is_none() || set.assemblers[1].key.is_none() || used(&set, k4) == 1;
+        let was_there = used(&set, k4) == 1;
+        let d = set.get(&k4, e4);
+        assert!(d.is_ok() == room, "prop:c12_slots_free_or_matching_slot_is_handed_out");
+        let reused = match d {
+            Ok(s) => {
+                assert!(s.key == Some(k4) && (was_there || (clean(s) && s.expires_at == e4)), "prop:c12_slots_new_slot_clean_and_keyed");
+                !was_there
+            }
+            Err(_) => false,
+        };
+        assert!(used(&set, k4) <= 1, "prop:c12_slots_one_slot_per_key");
+        kani::cover!(full, "full set refused a third key");
+        kani::cover!(full && freed == 1 && reused, "expired slot freed and reused by a new key");
+        kani::cover!(full && freed == 0 && !room, "nothing expired: still full");
+    }
+
+    // ------------------------------------------------------------------ out-of-range fragments
+    // @harness props=C12,C03 cfg=KI4 tier=q to=900 mem=6 unwind=12 opts=nomem covers=3 funcs=PacketAssembler::add;PacketAssembler::set_total_size;PacketAssembler::assemble bounds=one_fragment_already_stored_at_[8,16);_then_any_offset_(multiple_of_8_up_to_65528),_any_length_<=_16,_any_total_size_<=_70000;_256-byte_reassembly_buffer
+    #[kani::proof]
+    pub(crate) fn ipv4_reasm_bounds() {
+        assert!(crate::config::REASSEMBLY_BUFFER_SIZE == 256);
+        let mut pa = PacketAssembler::<Key>::new();
+        pa.key = Some(1);
+        let g: [u8; 8] = kani::any();
+        pa.add(&g[..], 8).unwrap();
+        let off8: u16 = kani::any();
+        kani::assume(off8 < 8192);
+        let off = off8 as usize * 8;
+        let len = any_le(16);
+        let data: [u8; 16] = kani::any();
+        let last: bool = kani::any();
+        let size = off + len;
+        let pre_asm = pa.assembler.clone();
+        let j = any_lt(256);
+        let pre_byte = pa.buffer[j];
+        // exactly process_ipv4's sequence
+        let mut accepted = false;
+        let mut out_len: Option<usize> = None;
+        let ts = if last { pa.set_total_size(size) } else { Ok(()) };
+        if last {
+            assert!(ts.is_err() == (size > 256), "prop:c12_reasm_total_size_beyond_buffer_rejected");
+        }
+        if ts.is_ok() {
+            let r = pa.add(&data[..len], off);
+            assert!(r.is_err() == (off + len > 256), "prop:c12_reasm_fragment_beyond_buffer_rejected");
+            if r.is_ok() {
+                accepted = true;
+                let i = any_lt(16);
+                if i < len {
+                    assert!(pa.buffer[off + i] == data[i], "prop:c12_reasm_fragment_stored_at_its_offset");
+                    assert!(pa.assembler.verif_present(off + i), "prop:c12_reasm_fragment_recorded");
+                }
+                if j < off || j >= off + len {
+                    assert!(pa.buffer[j] == pre_byte, "prop:c12_reasm_fragment_touches_only_its_range");
+                    assert!(pa.assembler.verif_present(j) == pre_asm.verif_present(j), "prop:c12_reasm_fragment_touches_only_its_range");
+                }
+                out_len = pa.assemble().map(|p| p.len());
+                // [0, size) is complete only if this fragment is the last one, starts at 0 and either ends before the
+                // stored range [8,16) begins or joins it and ends exactly with it
+                if let Some(n) = out_len {
+                    assert!(last && n == size && off == 0 && (len == 16 || len < 8), "prop:c12_reasm_delivers_only_when_every_byte_present");
+                }
+                if last && off == 0 && len == 16 {
+                    assert!(out_len == Some(16), "prop:c12_reasm_delivers_when_gaps_trackable");
+                }
+            } else {
+                assert!(pa.assembler == pre_asm && pa.buffer[j] == pre_byte, "prop:c12_reasm_rejected_fragment_changes_nothing");
+            }
+        } else {
+            assert!(pa.assembler == pre_asm && pa.buffer[j] == pre_byte && pa.total_size.is_none(), "prop:c12_reasm_rejected_fragment_changes_nothing");
+        }
+        kani::cover!(!accepted && off > 256, "fragment far beyond the buffer rejected");
+        kani::cover!(accepted && off + len == 256, "fragment ending exactly at the buffer end accepted");
+        kani::cover!(out_len == Some(16), "datagram completed by the symbolic fragment");
+    }
+
+    // ------------------------------------------------------------------ the reassembly key
+    // @harness props=C12 cfg=KI4 tier=q to=600 mem=6 unwind=12 opts=nomem covers=2 funcs=Ipv4Packet::get_key;FragKey::eq bounds=two_arbitrary_20-byte_IPv4_headers
+    #[kani::proof]
+    pub(crate) fn ipv4_reasm_key() {
+        let a: [u8; 20] = kani::any();
+        let b: [u8; 20] = kani::any();
+        let ka = FragKey::Ipv4(Ipv4Packet::new_unchecked(&a[..]).get_key());
+        let kb = FragKey::Ipv4(Ipv4Packet::new_unchecked(&b[..]).get_key());
+        // RFC 791: fragments belong together iff identification, source, destination and protocol agree
+        let same = a[4] == b[4] && a[5] == b[5] && a[9] == b[9]
+            && a[12] == b[12] && a[13] == b[13] && a[14] == b[14] && a[15] == b[15]
+            && a[16] == b[16] && a[17] == b[17] && a[18] == b[18] && a[19] == b[19];
+        assert!((ka == kb) == same, "prop:c12_reasm_key_is_ident_src_dst_protocol");
+        kani::cover!(ka == kb && a[6] != b[6], "same datagram, different fragment offsets");
+        kani::cover!(ka != kb && a[4] == b[4] && a[5] == b[5] && a[9] != b[9], "same ident, different protocol");
+    }
+
+    // @harness props=C12 kind=mustfail cfg=KI4 tier=q to=600 mem=6 unwind=12 opts=nomem,fs300
+    #[kani::proof]
+    pub(crate) fn ipv4_reasm_must_fail() {
+        let g: [u8; 16] = kani::any();
+        let mut set = PacketAssemblerSet::<Key>::new();
+        let exp = Instant::from_millis(0);
+        let first: bool = kani::any();
+        // a datagram is complete after any one of its two fragments (false)
+        let r = if first { offer(&mut set, 7, exp, &g[0..8], 0, true) } else { offer(&mut set, 7, exp, &g[8..16], 8, false) };
+        assert!(r.is_some(), "prop:deliberately_false_single_fragment_completes_datagram");
+    }
 }
